@@ -12,7 +12,7 @@ def gen_lines(rng, thorough):
         nc = rng.choice([0, 1, 2, 3, 5, 7, 8, 9, 13, 16, 17]); na = 3 if form == 'ilist' else rng.choice([0, 1, 2, 3, 4, 7]); nb = rng.choice([0, 0, 1, 2, 3])
         raw = [(rng.choice([0, 1, 2, 3, 5, 8, 12, 16, 24]), rng.choice([1, 2, 4, 8, 16])) for _ in range(rng.choice([0, 0, 1, 2, 4]))]
         # what the layout needs if nothing is wasted, then capacities around it: far below, one short, exact-ish, roomy
-        need = nc + na * 8 + nb * 16 + sum(r[0] for r in raw) + 40
+        need = nc + na * 24 + nb * 16 + sum(r[0] for r in raw) + 40
         cap = max(0, rng.choice([0, need // 2, need - 17, need - 9, need - 8, need - 1, need, need + 1, need + 7, need + 64, rng.randint(0, need + 80)]))
         post = rng.choice(['none', 'reset', 'clone', 'move', 'swap', 'assignnull', 'moveassign2', 'swap2', 'movector2'])
         lines.append('j %s %d %d %d %d -1 %s %s' % (form, cap, nc, na, nb, post, ' '.join('%d %d' % r for r in raw)))
@@ -42,11 +42,11 @@ def oracle(line):
         return 'after a move between joint_ptrs of two allocator objects the block is owned by / released through the wrong allocator object'
     if 'ctor=ok' not in toks:
         return None
-    sT = int(kv['sT']); eS = int(kv.get('eS', 8))
+    sT = int(kv['sT']); eS = int(kv.get('eS', 8)); eA = int(kv.get('eA', eS))
     pieces = []
     first = {}
     for x in toks:
-        for nm, size, al in (('c@', nc, 1), ('a@', na * eS, eS), ('b@', nb * 16, 16)):
+        for nm, size, al in (('c@', nc, 1), ('a@', na * eS, eA), ('b@', nb * 16, 16)):
             if x.startswith(nm) and nm not in first and size > 0:
                 first[nm] = 1; pieces.append((int(x[len(nm):]), size, al, nm))
         if x.startswith('n(') and not x.endswith('@throw'):
